@@ -24,17 +24,17 @@ func init() {
 //	clients : call specs (storeops.RunCall) joined by ","
 //	events  : joined by ","
 func exec(op string, args []string) []string {
-	if op != "sched" || len(args) != 3 {
+	if (op != "sched" && op != "sched1") || len(args) != 3 {
 		return []string{"bad-op"}
 	}
 	var out []string
-	if txt, ok := core.Guard(func() { out = run(args[0], args[1], args[2]) }); !ok {
+	if txt, ok := core.Guard(func() { out = run(args[0], args[1], args[2], op == "sched1") }); !ok {
 		return []string{"panic:" + txt}
 	}
 	return out
 }
 
-func run(initSpec, clientSpec, eventSpec string) []string {
+func run(initSpec, clientSpec, eventSpec string, shared bool) []string {
 	w := world.New(world.DefaultOptions())
 	defer w.Close()
 	if initSpec != "-" {
@@ -56,7 +56,13 @@ func run(initSpec, clientSpec, eventSpec string) []string {
 		s := s
 		clients[i] = func(p *world.Proc) string { return storeops.RunCall(p, s) }
 	}
-	res := storeops.RunScheduled(w, clients, strings.Split(eventSpec, ","))
+	// sched1: the operations are concurrent goroutines of one component (one lock manager, one connection pool)
+	var res storeops.SchedResult
+	if shared {
+		res = storeops.RunScheduledShared(w, clients, strings.Split(eventSpec, ","))
+	} else {
+		res = storeops.RunScheduled(w, clients, strings.Split(eventSpec, ","))
+	}
 	hung := ""
 	if res.Hung {
 		hung = "HUNG"
